@@ -216,6 +216,12 @@ class StubSim(mosaik_api_v3.Simulator):
                     any_p = True
                 else:
                     ll = beh.get("loop_len", 1)
+                    if beh.get("final_e1") and eid == "e1" and ll is not None:
+                        # the "settled" signal: produced once per time step, in the step after
+                        # the last loop output
+                        if k == ll:
+                            data.setdefault(eid, {})[a] = f"{self.sid}.{eid}.{a}@{time}#{k}{self.idig}"
+                        continue
                     if (ll is None or k < ll) and h01(b, "eo", eid, a) < beh.get("p_out", 1.0):
                         data.setdefault(eid, {})[a] = f"{self.sid}.{eid}.{a}@{time}#{k}{self.idig}"
         if beh.get("future") and (not any_p or beh.get("future_pers")) and data:
